@@ -181,7 +181,10 @@ def compile(provenance: Provenance, atype: Type[ATally]) -> Tuple[ADD, List[List
                 (a, deepcopy(element))
                 for a in product(*[range(provenance.num_candidates) for _ in range(len(factors))])
             )
-            vertical_elements.append(ADD.stack(factors=factors, elements=horizontal_elements))
+            if len(factors) == 0:
+                vertical_elements.append(element)
+            else:
+                vertical_elements.append(ADD.stack(factors=factors, elements=horizontal_elements))
         add = ADD.concatenate(elements=vertical_elements)
 
         # For each tuple, compute the locations where its avalue lies in the ADD.
